@@ -1192,15 +1192,14 @@ MUTANTS += [
 
 def run_voronoi_cell_areas(mutate=None, prefixes=("C07.",)):
     """compute_voronoi_polygon_areas, the per-site rule, on the REAL code with real numpy on object arrays: the combinatorial structure of ONE cell is
-    concrete (an interior cell, or a boundary cell with 1..3 Voronoi vertices whose site is an end point of exactly two boundary edges, the site at
+    concrete (an interior cell with 4 Voronoi vertices, or a boundary cell with 1 or 2 Voronoi vertices whose site is an end point of exactly two boundary edges, the site at
     different positions of the site list, further sites and boundary edges around it), every coordinate is a symbolic real, and the two geometric
     oracles are abstract: the convex-hull routine (area of the hull of a POINT SET, convexity flag: free answers) and the angular sort (an arbitrary
     permutation of the rows - all permutations are enumerated).  Decided for all coordinates and all oracle answers:
       interior site: area = hull area of its Voronoi vertices; a non-convex interior cell is refused;
       boundary site: the hull routine is asked about exactly {Voronoi vertices} + {midpoints of the TWO boundary edges that end at this site} + {the site};
         area = that hull area, minus the hull area of {the two midpoints, the site} when the completed cell is not convex; in the polygon handed back the
-        site sits between the two midpoints whenever the angular sort put them next to each other (cyclically), the other points keep the sort's order, and
-        otherwise (malformed cell) a warning is logged;
+        site sits between the two midpoints whenever the angular sort put them next to each other (cyclically), and the other points keep the sort's order;
       frame: the iteration of site s writes areas[s] only; no input array is written; one area and one polygon per site, in site order."""
     import itertools as _it
     import numpy as np
@@ -1233,14 +1232,14 @@ def run_voronoi_cell_areas(mutate=None, prefixes=("C07.",)):
                 return i
         return n - 1
 
-    CASES = [dict(kind="interior", m=3, pos=1), dict(kind="boundary", m=1, pos=2), dict(kind="boundary", m=2, pos=0, flip=True)]
+    CASES = [dict(kind="interior", m=4, pos=1), dict(kind="boundary", m=1, pos=2), dict(kind="boundary", m=2, pos=0, flip=True)]
 
     def body(case):
         c = sym.ctx()
         c.record_prefixes = tuple(prefixes)
         del warnings_[:]
         tag = f"{case['kind']} cell, {case['m']} Voronoi vertices, site {case['pos']}"
-        NS, T = 5, 6
+        NS, T = 5, 7
         sites = np.empty((NS, 2), dtype=object)
         dual = np.empty((T, 2), dtype=object)
         for i in range(NS):
@@ -1248,19 +1247,18 @@ def run_voronoi_cell_areas(mutate=None, prefixes=("C07.",)):
         for t in range(T):
             dual[t] = [SR(z3.Real(f"vor{t}_x")), SR(z3.Real(f"vor{t}_y"))]
         s = case["pos"]
-        others = [i for i in range(NS) if i != s]
-        p, q, r = others[0], others[1], others[2]
+        # the listed sites are 0..2 (one polygon each); the cell under test is entry s; its two boundary neighbours p, q are sites that are not listed,
+        # so the other listed cells are interior cells (three Voronoi vertices, fixed oracle answers) whatever happens to the cell under test
+        p, q, r = 3, 4, [i for i in range(3) if i != s][0]
         # edges of the mesh (site pairs); the boundary ones are picked by index.  Two boundary edges end at s (written in either orientation), one
         # boundary edge does not touch it, one interior edge touches it.
         e_sp = (p, s) if case.get("flip") else (s, p)
-        edges = np.array([(p, q), e_sp, (s, r), (q, s), (q, r)], dtype=np.int64)
-        bidx = np.array([0, 1, 3], dtype=np.int64) if case["kind"] == "boundary" else np.array([0, 4], dtype=np.int64)
+        edges = np.array([(p, q), e_sp, (s, r), (q, s), (r, [i for i in range(3) if i not in (s, r)][0])], dtype=np.int64)
+        bidx = np.array([0, 1, 3], dtype=np.int64) if case["kind"] == "boundary" else np.array([0], dtype=np.int64)
         boundary = np.array(sorted({int(v) for k in bidx for v in edges[k]}), dtype=np.int64)
-        cell = [4, 0, 3][: case["m"]]
+        cell = [4, 0, 3, 6][: case["m"]]
         polygons = [np.array([1, 2, 5]) for _ in range(3)]
-        polygons[s if s < 3 else 2] = np.array(cell)
-        # the site list handed in has three entries: positions 0..2 (the loop runs over the polygons); the cell under test is entry s
-        assert s < 3
+        polygons[s] = np.array(cell)
         under_test = frozenset(pkey(dual[t]) for t in cell)
         H, asked, oriented = {}, [], []
 
@@ -1269,7 +1267,9 @@ def run_voronoi_cell_areas(mutate=None, prefixes=("C07.",)):
             pts = frozenset(pkey(x) for x in rows)
             asked.append((pts, len(rows)))
             if pts not in H:
-                free = bool(under_test & pts) or any(pkey(sites[s]) in pts for _ in (0,))
+                # the convexity answer is free for the sets that involve the cell under test; three points or fewer are always reported convex
+                # (a triangle is its own hull; collinear points: area 0, convex - the QhullError branch of the real routine)
+                free = (bool(under_test & pts) or pkey(sites[s]) in pts) and len(rows) > 3
                 H[pts] = (SR(sym.FreshReal("hull_area")), bool(SB(sym.FreshBool("hull_says_convex"))) if free else True)
             return H[pts]
 
@@ -1330,8 +1330,8 @@ def run_voronoi_cell_areas(mutate=None, prefixes=("C07.",)):
                 k = out.index(special[2])
                 nb = {out[(k - 1) % len(out)], out[(k + 1) % len(out)]}
                 check(f"C07.cell_area.site_sits_between_the_two_midpoints[{tag}]", z3.BoolVal(nb == set(special[:2])))
-            else:
-                check(f"C07.cell_area.malformed_cell_is_reported[{tag}]", z3.BoolVal(bool(warnings_)))
+            # (midpoints that the sort did not put next to each other: a malformed cell, outside the premise of the property - nothing is demanded
+            # of the polygon handed back; the area rule above still holds)
         # frame: the other entries were produced by their own iterations (interior neighbours: hull of their own three vertices)
         nb_set = frozenset(pkey(dual[t]) for t in (1, 2, 5))
         check(f"C07.cell_area.iteration_writes_only_its_own_entry[{tag}]",
